@@ -145,6 +145,14 @@ Example history_hypotheses_satisfiable_kron :
   /\ Inv sym_kern svalid (fun _ => False) (fun _ => True) (fun _ _ => True) (fun _ _ => True) (fun _ _ => True) heap_kron.
 Proof. split; [exact hist_kron_ok | exact heap_kron_inv]. Qed.
 
+(* ... and on a heap with a BlockDiagLinearOperator over a batch of dense blocks (a class that hands its
+   factorizations, inv_quad_logdet, sampling and the Lanczos internals to its base operator, whose caches it writes) *)
+Example history_hypotheses_satisfiable_blockdiag :
+  good_run sym_kern fl_pinned scompat (fun _ => False) (fun _ => True) (fun _ _ => True) (fun _ _ => True) (fun _ _ => True)
+           (st_default, heap_block) hist_block
+  /\ Inv sym_kern svalid (fun _ => False) (fun _ => True) (fun _ _ => True) (fun _ _ => True) (fun _ _ => True) heap_block.
+Proof. split; [exact hist_block_ok | exact heap_block_inv]. Qed.
+
 (* ---------------------------------------------------------------- where the pinned code falsifies the statement *)
 
 (* add_low_rank with the default methods on a small matrix: self's root is the (triangular) Cholesky factor, the
